@@ -387,6 +387,41 @@ def odd_value_pairs(ctx, root):
         ka, kb = key_of(a), key_of(b_)
         if isinstance(ka, str) and isinstance(kb, str) and ka == kb:
             ctx.fail('two different parameter values got the same storage key', case, {'key': ka})
+    # (iii) `dtype=Path` values that are different texts for one place (relative / with `..` / absolute): different values, different keys;
+    # (iv) integers beyond 64 bits written in a JSON config FILE: exact, and different when they differ
+    import json as _json
+    pspec = {'classes': {'K0': {'name': 'po', 'group': '', 'params': [{'name': 'pth', 'dtype': 'path'}, {'name': 'n', 'default': 0}], 'inputs': [], 'kind': 'json',
+                                'run_args': []}}, 'files': {}, 'main': None}
+    pb = pl.materialize(pspec, root / 'oddp', modname=gen.fresh_modname())
+    pcls = getattr(pb.module(), pl.pyname('K0'))
+    (root / 'oddp' / 'inputs' / 'raw').mkdir(parents=True, exist_ok=True)
+    old_cwd = _os.getcwd()
+    try:
+        _os.chdir(root / 'oddp')
+        texts = ['inputs/raw', 'alt/../inputs/raw', str(root / 'oddp' / 'inputs' / 'raw'), './inputs/raw']
+        ks = {}
+        for t_ in texts:
+            ks[t_] = Config(root / 'oddpd', name='c', data={'tasks': [pcls], 'pth': t_}).chain().tasks['po'].name_for_persistence
+        case = {'probe': 'path values: different texts', 'values': texts}
+        ctx.case(case); ctx.count('odd-values:path-texts')
+        if len(set(ks.values())) < len(texts):
+            ctx.fail('two different parameter values got the same storage key', case, ks)
+    finally:
+        _os.chdir(old_cwd)
+    bigs = [2 ** 64 + 1, 2 ** 64 + 2, 2 ** 70, -(2 ** 65) - 1]
+    ks = {}
+    for j, n_ in enumerate(bigs):
+        f_ = root / 'oddp' / f'big{j}.json'
+        f_.write_text(_json.dumps({'tasks': [f'{pcls.__module__}.{pcls.__name__}'], 'pth': 'p', 'n': n_, 'nested': {'deep': [n_]}}))
+        t_ = Config(root / 'oddpd', str(f_)).chain().tasks['po']
+        case = {'probe': 'integers beyond 64 bits in a JSON config file', 'value': str(n_)}
+        ctx.case(case); ctx.count('odd-values:big-integers')
+        if t_.params['n'] != n_ or type(t_.params['n']) is not int:
+            ctx.fail('a task does not see the integer its config file holds', case, {'seen': repr(t_.params['n'])})
+        ks[str(n_)] = t_.name_for_persistence
+    if len(set(ks.values())) < len(bigs):
+        ctx.fail('two different parameter values got the same storage key', {'probe': 'integers beyond 64 bits in a JSON config file'}, ks)
+    pb.cleanup_module()
     for k in range(ctx.n(4, 20)):
         case = {'probe': 'plain objects with different state', 'states': [k, k + 1]}
         ctx.case(case); ctx.count('odd-values:plain-objects')
